@@ -24,27 +24,27 @@ CHECKS = {
     "C09": ("exploration", "4 C09", "deterministic simulation: seeded schedule search (random walk / calibrated PCT) over generated client programs, history oracle",
             "Seeded search over client programs x schedules of the real ThreadPool on a baton scheduler with virtual time; exactly-once, identity of results, no run while stopped and single-worker FIFO are checked on the recorded history. Exploration is the right level: the property quantifies over interleavings, which only a controlled scheduler reaches; the space is sampled (hundreds of thousands of schedules per minute), not enumerated."),
     "C10": ("exploration", "4 C10", "deterministic simulation: seeded schedule search with thread-start fault injection, bounds + bounded-liveness oracle",
-            "Same simulator; running-task and serving-worker counts are evaluated after every event, the lower bound between start() and stop(), constructor rejection/clamping over valid and invalid configurations, and progress of up to max_threads mutually dependent (barrier) tasks within a virtual-time bound; thread start failure is injected in a separate configuration where only the upper bounds are asserted."),
+            "Same simulator; running-task and serving-worker counts are evaluated after every event, the lower bound between start() and stop(), constructor rejection/clamping over valid and invalid configurations, and progress of up to max_threads mutually dependent (barrier) tasks within a virtual-time bound; thread start failure is injected by index of the start attempt: only the upper bounds while faults may still come, the growth rule again once they have stopped; tasks that submit sub-tasks to their own pool; swept lifecycle-race programs (every single pre-emption point)."),
     "C11": ("exploration", "4 C11", "deterministic simulation: seeded schedule search over lifecycle histories, deadlock detection by quiescence",
-            "Same simulator; join()/join(timeout) results are compared with the completion state of earlier tasks at the return instant, stop()/start()/join() termination is decided by the simulator's deadlock and stall detector (virtual time makes hangs cost microseconds), workers must have terminated after stop(), lifecycle calls must be idempotent and never raise."),
+            "Same simulator; join()/join(timeout) results are compared with the completion state of earlier tasks at the return instant, stop()/start()/join() termination is decided by the simulator's deadlock and stall detector (virtual time makes hangs cost microseconds), workers must have terminated after stop(), lifecycle calls must be idempotent and never raise; join(timeout) must not give up before its time-out; always-swept lifecycle-race programs (every single pre-emption point of short start/stop/enqueue/join races), untimed join vs stop, zero-timeout pools, a task ending with a BaseException."),
     "C01": ("exploration", "4 C01", "deterministic simulation (fault-free configuration): configuration x schedule x segmentation search of the whole client/server stack, reference call log + JSON normalisation oracle",
-            "The fault-free configuration of the full-system simulation: real ServerProxy/MultiCall clients, simulated byte-stream network with seeded segmentation and delay, real plain/pooled/bare-dispatcher servers over TCP, Unix and loopback, protocol versions 1.0/2.0 on both sides; every call has its own registered callable, so exactly-once invocation, argument fidelity, typed equality of the returned value and History == wire transcript are decided per call. The value dimension is sampled by the seeded generator; what the simulator adds is the configuration x schedule x segmentation product and exactly-once under pooled schedules."),
+            "The fault-free configuration of the full-system simulation: real ServerProxy/MultiCall clients, simulated byte-stream network with seeded segmentation and delay, real plain/pooled/bare-dispatcher servers over TCP, Unix and loopback, protocol versions 1.0/2.0 on both sides; every call has its own registered callable, so exactly-once invocation, argument fidelity, typed equality of the returned value and History == wire transcript are decided per call. The value dimension is sampled by the seeded generator; what the simulator adds is the configuration x schedule x segmentation product and exactly-once under pooled schedules. Also: persistent connections, library logging at DEBUG level, callables that take 7-40 virtual seconds, batch siblings that fail or are notifications, nested exchanges recorded in one History, histories of more than a thousand exchanges, cold-start runs."),
     "C02": ("fault_enumeration", "4 C02", "deterministic simulation with in-flight damage: enumeration of truncation points (sender dies mid-body) and single-character corruption of a request corpus, reply-shape validator",
-            "The real plain / pooled server behind the simulated network, and the bare dispatcher, are fed every truncation (the sending peer half-closes after k body bytes while the declared Content-Length stays, which drives the server's short-read branch) and every single-character replacement of a fixed corpus of valid and structurally odd requests, then a healthy probe; oracle written from the property text: HTTP 200, body empty or JSON holding well-formed 1.0/2.0 response objects, errors with integer code and string message, server still serving. Exhaustive over the damage positions of the listed corpus; the corpus itself is a sample."),
+            "The real plain / pooled server behind the simulated network, and the bare dispatcher, are fed every truncation (the sending peer half-closes after k body bytes while the declared Content-Length stays, which drives the server's short-read branch) and every single-character replacement of a fixed corpus of valid and structurally odd requests, then a healthy probe; oracle written from the property text: HTTP 200, body empty or JSON holding well-formed 1.0/2.0 response objects, errors with integer code and string message, server still serving. Exhaustive over the damage positions of the listed corpus; the corpus itself is a sample. Registered callables raise nine kinds of exceptions (incl. the library's own ProtocolError / TransportError / AppError), a notification pool may be set, requests may arrive with a pause of seconds between headers and body, the library may log at DEBUG level, and two batches of more than a hundred entries are run as they are. One known finding is reported as KNOWN-FINDING (overflowing numbers echoed as Infinity)."),
     "C04": ("exploration", "4 C04", "deterministic simulation: schedule search of notification-pool workers vs request thread, wire oracle + drained call log",
-            "Real dispatcher and servers with the notification pool absent or present (1-3 workers) and default / handler-level / instance-level custom dispatch functions; requests built by the client API and raw bodies for the shapes it cannot produce (id null, id '', batches with invalid entries); oracle: number of response objects equals the number of non-notification entries, no response object carries a notification's token, every executable notification is in the call log exactly once after the pools are drained, client notification calls return None, no worker is killed."),
+            "Real dispatcher and servers with the notification pool absent or present (1-3 workers) and default / handler-level / instance-level custom dispatch functions; requests built by the client API and raw bodies for the shapes it cannot produce (id null, id '', batches with invalid entries); oracle: number of response objects equals the number of non-notification entries, no response object carries a notification's token, every executable notification is in the call log exactly once after the pools are drained, client notification calls return None, no worker is killed. Callables under a custom dispatch function are known to that function only; persistent connections; a backlog of more than a thousand notifications behind a busy worker."),
     "C12": ("exploration", "4 C12", "deterministic simulation: concurrent clients x server threads x request-pool workers, lifecycle histories, client-death fault injection, differential sequential replay + deadlock detection",
-            "Full system with 1-4 concurrent clients, plain / pooled (default and user pools of 1-4 workers) servers on TCP and Unix listeners, lifecycle histories {serve_forever, handle_request loop, never served, shutdown with requests in flight, double close} and clients that die in the middle of a request body; oracle: each wire reply equals the reply of the same request on a fresh dispatcher served alone, clients only see their own tokens, executions are neither lost nor duplicated, shutdown()/server_close() return (simulated deadlock / stall / livelock detector), listener closed and pool workers terminated afterwards."),
+            "Full system with 1-4 (rarely 40-70) concurrent clients, plain / pooled (default and user pools of 1-4 workers) servers on TCP and Unix listeners, lifecycle histories {serve_forever, handle_request loop, never served, serve twice, shutdown with requests in flight, server_close alone while serving, stop requested by a served method, double close}, persistent connections, clients that die in the middle of a request body, slow peers (pauses of 2-120 virtual seconds inside a request), requests without Content-Length, cold-start runs; oracle: each wire reply equals the reply of the same request on a fresh dispatcher served alone, clients only see their own tokens, executions are neither lost nor duplicated, shutdown()/server_close() return (simulated deadlock / stall / livelock detector), listener closed and pool workers terminated afterwards."),
     "C13": ("exploration", "4 C13", "deterministic simulation: request histories and concurrent dispatcher threads, differential against a fresh server per request, Config snapshots",
-            "Histories of 1.0/2.0 calls, notifications, batches, invalid and failing requests on one long-lived server (bare dispatcher driven by 1-4 concurrent threads, plain and pooled servers), default and raising custom dispatch functions, methods returning Fault objects; oracle: each reply equals the reply of a fresh server to the same request, explicit 1.0/own-form rule for valid requests, field-by-field snapshots of the server Config and config.DEFAULT before and after, and a seeded mutation fragment on Config.copy() in both directions."),
+            "Histories of 1.0/2.0 calls, notifications, batches, invalid and failing requests on one long-lived server (bare dispatcher driven by 1-4 concurrent threads, plain and pooled servers), default and raising custom dispatch functions, methods returning Fault objects; oracle: each reply equals the reply of a fresh server to the same request, explicit 1.0/own-form rule for valid requests, field-by-field snapshots of the server Config and config.DEFAULT before and after, and a seeded mutation fragment on Config.copy() in both directions. On a server configured for 1.0 every response object is judged, error statuses included; cold-start runs with the first two requests of a process under every single pre-emption point; serialisation handlers that refuse values, conversions failing with other exceptions, methods calling sys.exit(), non-finite results, requests whose \"jsonrpc\" member is falsy."),
     "C17": ("exploration", "4 C17", "deterministic simulation: wire observation at a recording peer, seeded segmentation of both directions, read-chunk knob (buggify), gzip/chunked peers",
-            "Real client against the recording raw peer (exact bytes on the wire: Content-Length vs body bytes, Content-Type, request target for TCP and unix+http URLs) with identity / gzip / chunked responses whose multi-byte characters straddle the client's read size under random segmentation; real servers fed raw UTF-8 bodies whose multi-byte characters straddle the read-chunk boundary (chunk clamped by a knob; ground truth without the knob is a real 10 MiB+ body, see DESIGN.md); CGI handler; unsupported schemes; a raw-UTF-8 JSON back-end drawn per run."),
+            "Real client against the recording raw peer (exact bytes on the wire: Content-Length vs body bytes, Content-Type, request target for TCP and unix+http URLs) with identity / gzip / chunked responses whose multi-byte characters straddle the client's read size under random segmentation; real servers fed raw UTF-8 bodies whose multi-byte characters straddle the read-chunk boundary (chunk clamped by a knob; ground truth without the knob is a real 10 MiB+ body, see DESIGN.md); CGI handler through handle_request() with a standard input that delivers the body in pieces; unsupported schemes with and without a caller-supplied transport; supplied and shared transports; content types with parameters and content types set after the proxy was built; empty bodies, notifications, pauses of seconds inside a request, rarely a real body beyond 10 MiB; a raw-UTF-8 JSON back-end drawn per run."),
     "C18": ("exploration", "4 C18", "deterministic simulation: histories of nested header blocks with exits caused by injected transport faults, reference header stack at a recording peer",
-            "Generated histories of constructor headers and 0-4 nested _additional_headers blocks (names in random letter case incl. protected ones and User-Agent, non-string values) containing calls / notifications / batches; some calls are hit by an injected transport fault (refuse, reset, 4xx/5xx, truncated body, close before reply) so the blocks are left through the exception the fault caused; oracle: header lines recorded by the peer equal the reference stack's effective headers (most recent definition wins case-insensitively, no duplicates, protected names untouched, configured User-Agent unless pushed) and the transport's stack after every exit equals the one before entering."),
+            "Generated histories of constructor headers and 0-4 nested _additional_headers blocks (names in random letter case incl. protected ones and User-Agent, non-string values) containing calls / notifications / batches; some calls are hit by an injected transport fault (refuse, reset, 4xx/5xx, truncated body, close before reply) so the blocks are left through the exception the fault caused; oracle: header lines recorded by the peer equal the reference stack's effective headers (most recent definition wins case-insensitively, no duplicates, protected names untouched, configured User-Agent unless pushed) and the transport's stack after every exit equals the one before entering. Also a second proxy with its own constructor headers on the same transport, credentials in the URL, calls refused on the client side while their headers are written, BaseException exits."),
     "C19": ("fault_enumeration", "4 C19", "deterministic simulation: exhaustive enumeration of transport-fault scripts up to a bound at a scripted raw peer, plus seeded long scripts",
-            "Real ServerProxy/Transport/UnixTransport against the scripted raw peer; every fault script up to length 3 (quick) / 4 (thorough) over the property's alphabet x {TCP, Unix} x {EOF, reset, EPIPE on a write to a closed peer} is executed, then seeded scripts of length 1-12 with random segmentation; oracle per call: own token or an exception, TransportError fields for non-200 replies, never a value without a healthy reply to its own request, at most one failing call once the script is exhausted and none after a success."),
+            "Real ServerProxy/Transport/UnixTransport against the scripted raw peer; every fault script up to length 3 (quick) / 4 (thorough) over the property's alphabet x {TCP, Unix} x {EOF, reset, EPIPE on a write to a closed peer} is executed, then seeded scripts of length 1-12 with random segmentation; oracle per call: own token or an exception, TransportError fields for non-200 replies, never a value without a healthy reply to its own request, at most one failing call once the script is exhausted and none after a success. The six runs of every script rotate four proxy variants (default, version 1.0, verbose, 1.0 with every other call a notification); seeded scripts also use peers whose healthy replies are delimited by the close of the connection."),
     "C16": ("exploration", "4 C16", "deterministic simulation: line-level interleaving search of set_callback/execute/done/result, history oracle",
-            "Generated scripts from 2-4 threads on one FutureResult with pre-emption at every source line of threadpool.py; per-registration callback counts and arguments, done()/result() observations ordered against task completion, exact virtual time of result(timeout) expiry, containment of callback exceptions."),
+            "Generated scripts from 2-4 threads on one FutureResult with pre-emption at every source line of threadpool.py; per-registration callback counts and arguments, done()/result() observations ordered against task completion, exact virtual time of result(timeout) expiry, containment of callback exceptions. Tasks return, raise Exceptions (also falsy ones) or BaseExceptions, or return exception objects; callbacks are functions, partials, callable objects (also falsy ones), bound methods, register further callbacks or read their own future; one callable may be registered several times with different extras. A quarter of the runs are thread-pool programs with callbacks on pooled futures."),
 }
 
 
@@ -82,7 +82,7 @@ def main():
         }],
         "checks": checks,
         "not_applicable": na,
-        "notes": "Exit codes of every command: 0 held, 1 VIOLATION (replaying, minimised), 2 HARNESS-ERROR (nothing claimed). Genuine defects found and repaired are listed in known_findings.json (status fixed); fix commits in /repo start with 'fix:'.",
+        "notes": "Exit codes of every command: 0 held, 1 VIOLATION (replaying, minimised), 2 HARNESS-ERROR (nothing claimed). Genuine defects found and repaired are listed in known_findings.json (status fixed; twelve fix commits in /repo, all starting with 'fix:'); one genuine defect is recorded, not repaired (status known, property C02): its check prints a KNOWN-FINDING line and exits 0.",
     }
     with open(os.path.join(HERE, "MANIFEST.json"), "w") as fh:
         json.dump(m, fh, indent=1)
